@@ -6,10 +6,11 @@ CONSTANTS
   RMaxChunks = 2
   Buf = 2
   MaxFaults = 0
-  FaultKinds = {"cut", "relay", "remote"}
+  FaultKinds = {"cut", "relay", "remote", "submitter"}
   Scenarios = {"remote"}
   AlReader = TRUE
   AlOffsets = {0, 1, 2}
+  ReadAhead = 2
   A_CreateBeforePoll = TRUE
   KF_CancelNotComplete = FALSE
   DumpLocal = ""
